@@ -58,10 +58,27 @@ def gen_capture_probe(src, opts):
     else:
         lm = ("ten", ((j, sj),), (), "real", g.real_data(sj), False)
         bound = ("integrate", lm, body, ((j, sj),))
-    value = ("ten", ((j, sj),), (), sk, g.int_data(sk, sj), False)
-    subs = [(kname, value)]
-    if g.chance(0.5):
-        subs.append((rname, ("pynum", 0.5)) if g.real_shapes[rname] == () else (rname, ("ten", (), g.real_shapes[rname], "real", g.real_data(g.numel(g.real_shapes[rname])), False)))
+    variant = g.rint((0, 3))
+    rshape = g.real_shapes[rname]
+    rn = g.numel(rshape)
+    if variant == 0:
+        # integer input k := index tensor whose free input is the bound name j
+        subs = [(kname, ("ten", ((j, sj),), (), sk, g.int_data(sk, sj), False))]
+    elif variant == 1:
+        # integer input k := index tensor over k itself (the value mentions its own key)
+        subs = [(kname, ("ten", ((kname, sk),), (), sk, g.int_data(sk, sk), False))]
+    else:
+        # real input := real tensor whose free input is the bound name j
+        subs = [(rname, ("ten", ((j, sj),), rshape, "real", g.real_data(sj * rn), False))]
+    if variant < 2 and g.chance(0.6):
+        subs.append((rname, ("pynum", 0.5)) if rshape == () else (rname, ("ten", (), rshape, "real", g.real_data(rn), False)))
+    if variant >= 2 and len(g.real_shapes) > 1 and g.chance(0.5):
+        r2 = sorted(g.real_shapes)[1]
+        v2 = ("var", r2, ("real", g.real_shapes[r2]))
+        if g.real_shapes[r2] != ():
+            v2 = ("unp", "sum", (None, False), v2)
+        # body = x * y with neither mentioning j
+        bound = ("red", g.pick(["add", "logaddexp"]), ("bin", "mul", rvar, v2), ((j, sj),))
     return ("sub", bound, tuple(subs))
 
 
